@@ -112,6 +112,21 @@ class World:
                 cbs.append(self._guard(self.p.connection_lost, None))
             elif pr == "E":
                 cbs.append(self._guard(self.p.eof_received))
+            elif pr.startswith("C="):
+                # the caller of a reset / start-up wait gives up (its task is cancelled)
+                tk = self.tasks.get(int(pr[2:]))
+                if tk is not None and not tk.done():
+                    cbs.append((tk.cancel,))
+            elif pr == "Q":
+                # a send issued after everything before it has settled (e.g. the first command after a completed handshake)
+                async def _send2():
+                    try:
+                        await self.p.send_data(b"\x66\xbb")
+                        self.log.append("QD:ok")
+                    except BaseException as e:  # noqa: BLE001
+                        self.log.append("QD:" + type(e).__name__)
+
+                cbs.append((lambda: self.tasks.__setitem__("Q", self.loop.create_task(_send2())),))
             elif pr == "P":
                 # the host has a DATA frame in flight (written, not yet acknowledged) - its sender is a separate task
                 async def _send():
@@ -178,6 +193,7 @@ def oracle(w):
     waiting = {}
     startup = set()
     lost = False
+    fresh_session = False
     t_req = {}     # reset request -> time it was made (the one that armed the timeout: no other request pending then)
     for (batch, entries, st), now in zip(w.events, w.times):
         prims = batch.split("+")
@@ -196,7 +212,23 @@ def oracle(w):
         for e in entries:
             if e.startswith("!") or ":!" in e:
                 return f"unexpected exception {e} in batch {batch}"
-        entries = [e for e in entries if not e.startswith("PD:") and not (e.startswith("W") and "P" in prims)]
+        # numbering restarts with the handshake: the first DATA frame the host transmits after a completed reset is frame 0
+        for e in entries:
+            if e.startswith("RD") and e.endswith(":ok"):
+                fresh_session = True
+            if e[0] == "W" and fresh_session and not lost:
+                from harness.props.c05 import decode_wire
+
+                try:
+                    dw = decode_wire(ashlib.unhx(e[1:]))
+                except Exception:  # noqa: BLE001
+                    dw = ("?",)
+                if dw[0] == "D" and not dw[2]:
+                    if dw[1] != 0:
+                        return (f"the first DATA frame after the completed reset handshake carries frame number {dw[1]}, not 0 "
+                                f"(batch {batch}; a freshly reset NCP expects 0)")
+                    fresh_session = False
+        entries = [e for e in entries if not e.startswith(("PD:", "QD:")) and not (e.startswith("W") and ("P" in prims or "Q" in prims))]
         for c in now_resets:
             if not waiting and "L1" not in prims and "L0" not in prims and not lost:
                 if "W" + RST_WIRE not in entries:
@@ -272,6 +304,18 @@ def cases(ctx):
             cs.append((0, 0, ["P"] + waiter + [loss]))
             cs.append((4, 3, waiter + ["P", loss]))
             cs.append((0, 0, ["P"] + waiter[:-1] + [waiter[-1], "F=A:0:0:0+" + loss]))
+    # a reset abandoned by its caller, then a new one: the new request has its own full timeout and is completed by its own RSTACK
+    for w1 in (300, 2000, 4500):
+        for w2 in (100, 1500):
+            cs.append((0, 0, ["R=1", f"W={w1}", "C=1", f"W={w2}", "R=2", "T", "T"]))
+            cs.append((0, 0, ["R=1", f"W={w1}", "C=1", f"W={w2}", "R=2", "W=4000", "F=K:2:11"]))
+            cs.append((0, 0, ["S=1", f"W={w1}", "C=1", f"W={w2}", "R=2", "T"]))
+    # a DATA frame is in flight when the reset is requested; its ACK and the RSTACK arrive back to back (one read); the first send
+    # after the handshake starts the new numbering
+    for tx in range(8):
+        cs.append((tx, 0, ["P", "R=1", f"F=A:0:0:{(tx + 1) % 8}+F=K:2:11", "Q"]))
+        cs.append((tx, 0, ["P", "R=1", f"F=A:0:0:{(tx + 1) % 8}", "F=K:2:11", "Q"]))
+        cs.append((tx, 0, ["P", "R=1", "F=K:2:11", "Q"]))
     # the reset timeout runs from the request, whatever arrives meanwhile (frames of the old session, acknowledgements, failures)
     for mids in itertools.product(["F=D:0:0:0:aa", "F=A:0:0:1", "F=K:2:2", "F=E:2:81", "F=N:0:0:0"], repeat=2):
         for w1, w2 in ((700, 1900), (2500, 2400), (4100, 300)):
@@ -315,7 +359,7 @@ def run(ctx):
         if bad:
             ise = "InvalidStateError" in bad
             ctx.violation(bad, {"kind": "connection-lost-invalid-state" if ise else "reset"}, {"tx": tx, "rx": rx, "batches": [b for b, _, _ in w.events]})
-        if model is not None and w.events and not any(p.startswith("W=") or p == "P" for b in bs for p in b.split("+")):
+        if model is not None and w.events and not any(p.startswith(("W=", "C=")) or p in ("P", "Q") for b in bs for p in b.split("+")):
             ms = model[i].split("|")
             for (b, en, st), m in zip(w.events, ms):
                 mo, mst = m.split(";")
